@@ -195,10 +195,48 @@ fn one<C: Suite>(ctx: &mut Ctx, g: u64, scheme: Scheme, len: usize, content: Con
     }
 
     // ---------------- wrong keys
+    // The construction has no key confirmation: under a wrong key the payload decrypts to
+    // pseudo-random bytes whose length prefix is then parsed, so a wrong key returns the ORIGINAL
+    // message with probability about 256^-(1+len). For len <= 2 that is observable and is the
+    // recorded known finding `C11/wrong-key-decrypts/no-key-confirmation(len<=2)`; for longer
+    // messages (probability <= 2^-32 per trial) any observation is reported under its own signature.
     for i in 0..8 {
         let wk = sk_from_rs::<C>(&gen::random_scalar(&mut rng));
         let Some((_, _, orig)) = probe::<C>(ctx, &ct, &wk, &msg) else { continue };
-        ctx.expect(!orig, &format!("C11/wrong-key-decrypts/{n}/{sn}"), || d("a different secret key returned the original message"));
+        let sig = if len <= 2 { "C11/wrong-key-decrypts/no-key-confirmation(len<=2)".to_string() } else { format!("C11/wrong-key-decrypts/{n}/{sn}") };
+        ctx.expect(!orig, &sig, || d("a different secret key returned the original message"));
         ctx.hit(&format!("{n}/{sn}/wrong-key"), &[&[i], &ctb]);
     }
+    // directed search for the known finding, so that it is re-observed in every run: for the
+    // empty message, look for a wrong key whose key stream starts with the byte that makes the
+    // length prefix parse as 0 (expected after ~256 keys; the reference computes the candidates,
+    // the LIBRARY confirms the witness)
+    if len == 0 && content_is_random(content) {
+        let ru = RPk::<C>::dec(&enc_pt(&ct.u));
+        if let Some(ru) = ru {
+            for t in 0..20_000u32 {
+                let wk = gen::random_scalar(&mut rng);
+                let first = refimpl::shake128_xor(&ru.mul(&wk).enc(), &ct.v[..1])[0];
+                if first != 0 {
+                    continue;
+                }
+                let lwk = sk_from_rs::<C>(&wk);
+                if let Some((_, _, orig)) = probe::<C>(ctx, &ct, &lwk, &msg) {
+                    ctx.count("no-key-confirmation/search-trials", t as u64 + 1);
+                    ctx.expect(!orig, "C11/wrong-key-decrypts/no-key-confirmation(len<=2)", || {
+                        let mut x = d("a different secret key returned the original (empty) message: the ciphertext carries no key confirmation");
+                        x["wrong_key"] = json!(hex::encode(wk.to_be_bytes()));
+                        x["found_after_trials"] = json!(t + 1);
+                        x
+                    });
+                    ctx.hit(&format!("{n}/{sn}/wrong-key"), &[b"directed", &ctb]);
+                }
+                break;
+            }
+        }
+    }
+}
+
+fn content_is_random(c: Content) -> bool {
+    matches!(c, Content::Random)
 }
